@@ -435,8 +435,8 @@ class Group:
             st["depth_max"] = max(st["depth_max"], (len(cb) - 33) // 32)
         if ref_ok:
             st["ref_ok"] += 1
-            if getattr(self, "root", None) is None:
-                self.root = info["merkle_root"]
+        if info.get("q") == self.Q and getattr(self, "root", None) is None:
+            self.root = info["merkle_root"]     # Merkle root behind the printed output key (for the key-path round trip)
         # (c) the debugger's own commitment check
         pb, cmdb = self.run_btcdeb(txh)
         cls = self.classify_btcdeb(pb)
@@ -660,7 +660,9 @@ def run(ctx):
         for r in results:
             j = r["job"]
             if j["pattern"] == pat and j["n"] == n and j["ki"] == 1 and j["pi"] == 1 and r["samples"]:
-                samples.extend(r["samples"][-2:])
+                if not samples:
+                    samples.append(r["samples"][0])      # the plain address run
+                samples.append(dict(r["samples"][-1], case="key#%d pattern=%s n=%d prefix=%s" % (j["ki"], pat, n, PREFIXES[j["pi"]][1])))
                 break
     if not samples:
         samples = [s for r in results for s in r["samples"]][:4] or ["(no tool run produced output)"]
